@@ -6,3 +6,9 @@ Proof. exact (BddSet.C19_histories bits os st rs). Qed.
 Theorem C19_initial bits : rel bits (F, F) ((fun _ => false), (fun _ => false)). Proof. exact (BddSet.C19_initial bits). Qed.
 Theorem C19_query_pure bits st i e : fst (step bits st (SContains i e)) = st. Proof. exact (BddSet.C19_query_pure bits st i e). Qed.
 Print Assumptions C19_histories.
+
+(** insert 1, insert 2 into set 0, query: the answers are those of the reference, and the query changed nothing *)
+Example C19_instance :
+  runs 2 (F, F) (SInsert false 1 :: SInsert false 2 :: SContains false 1 :: SContains false 2 :: SContains false 3 :: nil)
+  = None :: None :: Some true :: Some true :: Some false :: nil.
+Proof. vm_compute. reflexivity. Qed.
